@@ -278,6 +278,79 @@ class Ctx:
     def check(self, exprs, timeout=None):
         return self.solve(exprs, timeout)[0]
 
+    def cross_check(self, exprs, timeout_ms=4000):
+        """re-decide a query with cvc5 (second, independent solver) on the SMT-LIB2 dump; returns 'sat' / 'unsat' / 'unknown' / 'unavailable'"""
+        try:
+            import cvc5
+        except Exception:  # noqa
+            return "unavailable"
+        t = time.time()
+        exprs = [e for e in exprs if not z3.is_true(e)]
+        full = exprs + self.axioms_for(exprs)
+        s = z3.Solver()
+        s.add(*full)
+        txt = s.to_smt2()
+        res = self._in_child(lambda: self._cvc5_run(cvc5, txt, timeout_ms), timeout_ms / 1000.0 + 3.0)
+        self.stats.add("cvc5", res, time.time() - t)
+        return res
+
+    def _in_child(self, fn, limit_s):
+        """run fn() -> str in a forked child that is killed after limit_s (cvc5 does not always honour its time limit)"""
+        import os
+        import select
+        import signal
+
+        r, w = os.pipe()
+        pid = os.fork()
+        if pid == 0:
+            try:
+                os.close(r)
+                signal.setitimer(signal.ITIMER_REAL, 0)
+                os.write(w, str(fn()).encode())
+            except BaseException:
+                pass
+            finally:
+                os._exit(0)
+        os.close(w)
+        out = "unknown"
+        try:
+            ready, _, _ = select.select([r], [], [], limit_s)
+            if ready:
+                b = os.read(r, 64)
+                if b:
+                    out = b.decode()
+        finally:
+            os.close(r)
+            try:
+                os.kill(pid, signal.SIGKILL)
+            except ProcessLookupError:
+                pass
+            try:
+                os.waitpid(pid, 0)
+            except ChildProcessError:
+                pass
+        return out if out in ("sat", "unsat", "unknown") else "unknown"
+
+    def _cvc5_run(self, cvc5, txt, timeout_ms):
+        res = "unknown"
+        try:
+            slv = cvc5.Solver()
+            slv.setOption("tlimit-per", str(int(timeout_ms)))
+            slv.setLogic("QF_NIRA" if "to_int" in txt else "QF_NRA")
+            prs = cvc5.InputParser(slv)
+            prs.setStringInput(cvc5.InputLanguage.SMT_LIB_2_6, txt, "q")
+            sm = prs.getSymbolManager()
+            while True:
+                cmd = prs.nextCommand()
+                if cmd.isNull():
+                    break
+                out = str(cmd.invoke(slv, sm)).strip()
+                if out in ("sat", "unsat", "unknown"):
+                    res = out
+        except Exception:  # noqa
+            res = "unknown"
+        return res
+
     # ------------------------------------------------------------------ forking
     def _site(self):
         f = sys._getframe(2)
